@@ -14,7 +14,7 @@ func init() {
 		technique: "call-graph effect rule (no goroutine/channel hop between the send API and Mailbox.Enqueue), loop-shape rule for batch sends and unstash, publication-order rule for the default MPSC mailbox (shared with C04)",
 		explanation: "Decides necessary conditions of per-sender FIFO that are visible in the code shape: (1) the local send path is synchronous up to the enqueue: from Tell/Ask/BatchTell/ReceiveContext.Tell/... the call chain to PID.doReceive contains no 'go' statement and no asynchronous hand-off (two sends issued in program order by one goroutine reach Enqueue in that order); (2) batch sends iterate the argument slice in index order, one Tell/Ask per element, and stop at the first error; (3) unstashAll dequeues the stash until it is empty and re-enqueues in dequeue order, every dequeue and its re-enqueue happen with the stash lock held (a drain is one critical section: two concurrent drains cannot interleave), unstash moves exactly one message; the stash box is a FIFO UnboundedMailbox; (4) the default mailbox's enqueue publishes in the order clear-next, swap-tail, link-prev and its dequeue follows next pointers from the head (FIFO list); (5) the turn loop dequeues the user mailbox at exactly one site. FIFO of the lock-free queues under all producer interleavings is not decided.",
 		assumptions: []string{"FIFO/linearizability of each mailbox under concurrent producers, segment roll-over and pooled-node reuse", "remote sends (ordering on the wire is C27)"},
-		minObl:     16,
+		minObl:     24,
 		run:        runC03,
 	})
 }
